@@ -329,6 +329,194 @@ theorem cylinder_closed (r height : ℝ) (hr : 0 < r) (seg : Nat) (p : Polyhedro
   subst ht'; subst hb'
   exact ⟨hlb, hlt⟩
 
+/-! ### revolve and sweep: closed whenever their cap runs are complete -/
+theorem ringF_shift_mul (n r k : Nat) : (ringF n r).map (shift (k * n)) = ringF n (r + k) := by
+  simp only [ringF, List.map_map]
+  apply List.map_congr_left
+  intro i _
+  simp only [Function.comp, shift, Nat.add_mul]
+  apply Prod.ext <;> (simp only []; omega)
+
+theorem tri3d_eq (vs : List (Pt3 ℝ)) (nml : Pt3 ℝ) (out : List Nat) (h : Tri.triangulate3d vs nml = some out) :
+    3 < vs.length ∧ out = Tri.triangulate (Tri.indexed (vs.map (Tri.project (Tri.classify nml)))) := by
+  unfold Tri.triangulate3d at h
+  split at h
+  · rename_i hn
+    refine ⟨hn, ?_⟩
+    cases hcl : Tri.classify nml <;> simp [hcl] at h ⊢ <;> exact h.symm
+  · simp at h
+theorem tri3dRev_eq (vs : List (Pt3 ℝ)) (nml : Pt3 ℝ) (out : List Nat) (h : Tri.triangulate3dRev vs nml = some out) :
+    3 < vs.length ∧ out = Tri.triangulate (Tri.indexed (vs.map (Tri.project (Tri.classify nml)))).reverse := by
+  unfold Tri.triangulate3dRev at h
+  split at h
+  · rename_i hn
+    refine ⟨hn, ?_⟩
+    cases hcl : Tri.classify nml <;> simp [hcl] at h ⊢ <;> exact h.symm
+  · simp at h
+
+theorem allEdges_triFaces_shift (off : Nat) : ∀ l : List Nat,
+    (allEdges (triFaces 0 l)).map (shift off) = allEdges (triFaces off l)
+  | [] => by simp [triFaces, allEdges]
+  | [_] => by simp [triFaces, allEdges]
+  | [_, _] => by simp [triFaces, allEdges]
+  | a :: b :: c :: rest => by
+    have ih := allEdges_triFaces_shift off rest
+    simp only [triFaces, allEdges, List.flatMap_cons, faceEdges_tri, List.map_append, List.map_cons,
+      List.map_nil, shift, Nat.add_zero] at ih ⊢
+    rw [ih]
+
+/-- a complete 3D cap run (forward list) offset by `off` has the shifted ring 0 as boundary -/
+theorem cap3d_forward (vs : List (Pt3 ℝ)) (nml : Pt3 ℝ) (out : List Nat) (off : Nat)
+    (h : Tri.triangulate3d vs nml = some out) (hc : out.length = 3 * (vs.length - 2)) :
+    EdgeClosed (allEdges (triFaces off out) ++ ((ringF vs.length 0).map (shift off)).map Prod.swap) := by
+  obtain ⟨hn, rfl⟩ := tri3d_eq vs nml out h
+  have := cap_forward (vs.map (Tri.project (Tri.classify nml))) off (by simp; omega) (by simpa using hc)
+  simpa using this
+
+/-- a complete 3D cap run on the reversed list has the shifted ring 0 *backwards* as boundary -/
+theorem cap3d_backward (vs : List (Pt3 ℝ)) (nml : Pt3 ℝ) (out : List Nat) (off : Nat)
+    (h : Tri.triangulate3dRev vs nml = some out) (hc : out.length = 3 * (vs.length - 2)) :
+    EdgeClosed (allEdges (triFaces off out) ++ (ringF vs.length 0).map (shift off)) := by
+  obtain ⟨hn, rfl⟩ := tri3dRev_eq vs nml out h
+  have h0 := cap_backward (vs.map (Tri.project (Tri.classify nml))) (by simp; omega) (by simpa using hc)
+  simp only [List.length_map] at h0
+  have hs := edgeClosed_shift off _ h0
+  rw [List.map_append, allEdges_triFaces_shift] at hs
+  exact hs
+
+
+theorem partialRevolve_closed' (n k : Nat) (capStart capEnd : List MeshLemmas.Edge)
+    (hS : EdgeClosed (capStart ++ (ringF n 0).map Prod.swap)) (hE : EdgeClosed (capEnd ++ ringF n k)) :
+    EdgeClosed (capStart ++ allEdges (revolveBody n k) ++ capEnd) := by
+  have hb := revolveBody_closed n k
+  unfold EdgeClosed at hb hS hE ⊢
+  rw [List.perm_iff_count] at hb hS hE ⊢
+  intro x
+  have h1 := hb x
+  have s1 := hS x
+  have e1 := hE x
+  simp only [List.map_append, List.count_append, MeshLemmas.count_map_swap, Prod.swap_swap] at h1 s1 e1 ⊢
+  omega
+
+theorem openSweep_closed' (n k : Nat) (capStart capEnd : List MeshLemmas.Edge)
+    (hS : EdgeClosed (capStart ++ ringF n 0)) (hE : EdgeClosed (capEnd ++ (ringF n k).map Prod.swap)) :
+    EdgeClosed (capStart ++ allEdges (sweepBody n k) ++ capEnd) := by
+  have hb := sweepBody_closed n k
+  unfold EdgeClosed at hb hS hE ⊢
+  rw [List.perm_iff_count] at hb hS hE ⊢
+  intro x
+  have h1 := hb x
+  have s1 := hS x
+  have e1 := hE x
+  simp only [List.map_append, List.count_append, MeshLemmas.count_map_swap, Prod.swap_swap] at h1 s1 e1 ⊢
+  omega
+
+/-- **C04, partial revolve — no certificate needed.** A `rotate_extrude` by less than 360° whose two
+cap triangulations are complete is closed. -/
+theorem rotateExtrude_closed_of_complete (profile2 : List (Pt2 ℝ)) (degrees : ℝ) (segments : Nat)
+    (p : Polyhedron ℝ) (h : rotateExtrude profile2 degrees segments = some p) (hd : degrees ≠ 360)
+    (hcomplete : ∀ sc ec,
+      Tri.triangulate3d (profile2.map fun q => (⟨q.x, 0, q.y⟩ : Pt3 ℝ)) ⟨0, -1, 0⟩ = some sc →
+      Tri.triangulate3dRev (profile2.map fun q => (⟨q.x, 0, q.y⟩ : Pt3 ℝ)) ⟨0, -1, 0⟩ = some ec →
+      sc.length = 3 * (profile2.length - 2) ∧ ec.length = 3 * (profile2.length - 2)) :
+    EdgeClosed (allEdges p.faces) := by
+  have hseg : 3 ≤ segments := (C05.rotateExtrude_points profile2 degrees segments p h).1.2.2
+  rcases rotateExtrude_faces profile2 degrees segments p h with ⟨he, _⟩ | ⟨_, sc, ec, h1, h2, hf⟩
+  · exact absurd he hd
+  · obtain ⟨c1, c2⟩ := hcomplete sc ec h1 h2
+    have hb : ((List.range (segments - 1)).flatMap fun j => stripRev profile2.length j (j + 1)) ++
+        stripRev profile2.length (segments - 1) segments = revolveBody profile2.length segments := by
+      have : segments = (segments - 1) + 1 := by omega
+      conv_rhs => rw [this, revolveBody_succ]
+      rw [← this]; rfl
+    rw [hf, List.append_assoc (triFaces 0 sc), hb, allEdges_append, allEdges_append]
+    apply partialRevolve_closed'
+    · have := cap3d_forward _ _ sc 0 h1 (by simpa using c1)
+      have hs : ∀ l : List MeshLemmas.Edge, l.map (shift 0) = l := by
+        intro l
+        conv_rhs => rw [← List.map_id l]
+        apply List.map_congr_left
+        intro e _; cases e; simp [shift]
+      simpa [hs] using this
+    · have := cap3d_backward _ _ ec (segments * profile2.length) h2 (by simpa using c2)
+      simp only [List.length_map] at this
+      rwa [ringF_shift_mul, Nat.zero_add] at this
+
+
+theorem flatMap_length_const {β γ : Type} (l : List β) (f : β → List γ) (k : Nat) (h : ∀ x ∈ l, (f x).length = k) :
+    (l.flatMap f).length = l.length * k := by
+  induction l with
+  | nil => simp
+  | cons a t ih =>
+    rw [List.flatMap_cons, List.length_append, h a (by simp), ih (fun x hx => h x (by simp [hx]))]
+    simp [Nat.succ_mul]; omega
+
+/-- the parts of an open sweep: first ring, middle rings, last ring, and the two cap triangulations -/
+theorem sweep_open_parts (profile2 : List (Pt2 ℝ)) (path : List (Pt3 ℝ)) (twist : ℝ) (p : Polyhedron ℝ)
+    (h : sweep profile2 path twist false = some p) :
+    2 ≤ path.length ∧ ∃ (first mid last : List (Pt3 ℝ)) (d0 dL : Pt3 ℝ) (sc ec : List Nat),
+      first.length = profile2.length ∧ mid.length = (path.length - 2) * profile2.length ∧
+      last.length = profile2.length ∧
+      Tri.triangulate3dRev first d0 = some sc ∧ Tri.triangulate3d last dL = some ec ∧
+      p.points = first ++ mid ++ last ∧
+      p.faces = triFaces 0 sc ++ sweepBody profile2.length (path.length - 1) ++
+        triFaces ((path.length - 1) * profile2.length) ec := by
+  unfold sweep at h
+  simp only [] at h
+  by_cases hl : path.length < 2
+  · simp [hl] at h
+  · refine ⟨by omega, ?_⟩
+    simp only [hl, if_false, Bool.false_eq_true, Option.bind_eq_bind, Option.pure_def] at h
+    obtain ⟨scF, hsc, h⟩ := C05.bind_some h
+    obtain ⟨ec, hec, h⟩ := C05.bind_some h
+    injection h with h; subst h
+    obtain ⟨sc0, hsc0, rfl⟩ := Option.map_eq_some_iff.mp hsc
+    refine ⟨_, _, _, _, _, sc0, ec, ?_, ?_, ?_, hsc0, hec, rfl, ?_⟩
+    · simp [sweepRing]
+    · rw [flatMap_length_const _ _ profile2.length (fun x _ => by simp [sweepRing])]
+      simp
+    · simp [sweepRing]
+    · have hb : ((List.range (path.length - 2)).flatMap fun j => strip profile2.length j (j + 1)) ++
+          strip profile2.length (path.length - 2) (path.length - 1) = sweepBody profile2.length (path.length - 1) := by
+        have : path.length - 1 = (path.length - 2) + 1 := by omega
+        rw [this, sweepBody_succ]; rfl
+      simp only [List.length_map]
+      rw [← hb]
+      simp only [List.append_assoc]
+
+/-- **C04, open sweep — no certificate needed.** An open sweep whose two cap triangulations (of its
+first and last ring, as they sit in the result's point list) are complete is closed. -/
+theorem sweep_open_closed_of_complete (profile2 : List (Pt2 ℝ)) (path : List (Pt3 ℝ)) (twist : ℝ)
+    (p : Polyhedron ℝ) (h : sweep profile2 path twist false = some p)
+    (hcomplete : ∀ d0 dL sc ec,
+      Tri.triangulate3dRev (p.points.take profile2.length) d0 = some sc →
+      Tri.triangulate3d (p.points.drop ((path.length - 1) * profile2.length)) dL = some ec →
+      sc.length = 3 * (profile2.length - 2) ∧ ec.length = 3 * (profile2.length - 2)) :
+    EdgeClosed (allEdges p.faces) := by
+  obtain ⟨hl, first, mid, last, d0, dL, sc, ec, h1, h2, h3, hsc, hec, hp, hf⟩ := sweep_open_parts profile2 path twist p h
+  have htake : p.points.take profile2.length = first := by
+    rw [hp, List.append_assoc, List.take_left' h1]
+  have hdrop : p.points.drop ((path.length - 1) * profile2.length) = last := by
+    rw [hp]
+    have : (first ++ mid).length = (path.length - 1) * profile2.length := by
+      rw [List.length_append, h1, h2]
+      have : path.length - 1 = (path.length - 2) + 1 := by omega
+      rw [this, Nat.succ_mul]; omega
+    rw [List.drop_left' this]
+  obtain ⟨c1, c2⟩ := hcomplete d0 dL sc ec (by rw [htake]; exact hsc) (by rw [hdrop]; exact hec)
+  rw [hf, allEdges_append, allEdges_append]
+  have hs0 : ∀ l : List MeshLemmas.Edge, l.map (shift 0) = l := by
+    intro l
+    conv_rhs => rw [← List.map_id l]
+    apply List.map_congr_left
+    intro e _; cases e; simp [shift]
+  apply openSweep_closed'
+  · have := cap3d_backward first d0 sc 0 hsc (by rw [h1]; exact c1)
+    rw [h1, hs0] at this; exact this
+  · have := cap3d_forward last dL ec ((path.length - 1) * profile2.length) hec (by rw [h3]; exact c2)
+    rw [h3, ringF_shift_mul, Nat.zero_add] at this; exact this
+
+
 /-! ### enclosed volume (clockwise-outside convention) -/
 /-- six times the signed volume contributed by one face (fan from its first vertex) -/
 noncomputable def faceVol (p : Nat → Pt3 ℝ) : List Nat → ℝ
